@@ -207,10 +207,10 @@ type endObs struct {
 
 type c06Obs struct {
 	Cli, Srv  endObs
-	Timeout   bool   `json:"timeout"`
-	DataOK    bool   `json:"data_ok"`
-	DataErr   string `json:"data_err"`
-	DataBytes int    `json:"data_bytes"`
+	Timeout   bool     `json:"timeout"`
+	DataOK    bool     `json:"data_ok"`
+	DataErr   string   `json:"data_err"`
+	DataBytes int      `json:"data_bytes"`
 	WantPeerC []string `json:"want_peer_c"` // what the client should see: the server's chain
 	WantPeerS []string `json:"want_peer_s"` // what the server should see when the client sent a certificate
 }
